@@ -839,6 +839,11 @@ def explore_to_part(cfg, prop, max_wall=None):
         )
     if res.counters.get("executions_cut_at_the_horizon"):
         part.notes.append("%s: executions were cut after %s steps (horizon); nothing is claimed beyond that point" % (cfg.name, getattr(cfg, "horizon_steps", "?")))
+    if res.terminals == 0 and not res.violations and not res.counters.get("executions_cut_at_the_horizon") and not res.unsound:
+        # an exploration in which no execution ever finished says nothing (e.g. a polling loop that the default
+        # order never lets anything else interrupt): an error of the check, not a pass
+        part.count("driver_crashes")
+        part.notes.append("%s: vacuous exploration - no execution reached a terminal state and nothing was reported" % cfg.name)
     if res.unsound:
         part.count("driver_crashes")
         part.notes.append("%s: %s" % (cfg.name, res.unsound))
